@@ -16,9 +16,15 @@ XPREFIX = [b"user.", b"trusted.", b"security."]
 
 class T:
     """one entry of the image: raw name bytes (len >= 1 on disk, root: b''), kind, raw target, xattr keys, children"""
-    __slots__ = ("name", "kind", "target", "xkeys", "children", "data", "mode", "uid", "gid", "mtime")
+    __slots__ = ("name", "kind", "target", "xkeys", "children", "data", "mode", "uid", "gid", "mtime", "ino", "share")
 
-    def __init__(self, name, kind, target=b"", xkeys=(), children=(), data=b"x", mode=0o644, uid=0, gid=0, mtime=0):
+    def __init__(self, name, kind, target=b"", xkeys=(), children=(), data=b"x", mode=0o644, uid=0, gid=0, mtime=0,
+                 ino=None, share=False):
+        # ino: None = the writer's own (distinct) inode number; an int g = all entries of the image with the same g carry
+        # ONE inode_number in their inodes (image-controlled field).  share: this entry refers to the very same inode
+        # (same inode reference) as the first entry of its group g (a second name for one inode).
+        self.ino = ino
+        self.share = share
         self.name = name
         self.kind = kind
         self.target = target
@@ -33,20 +39,21 @@ class T:
     def to_json(self):
         return dict(name=self.name.hex(), kind=self.kind, target=self.target.hex(), xkeys=[k.hex() for k in self.xkeys],
                     mode=self.mode, uid=self.uid, gid=self.gid, mtime=self.mtime, data=self.data.hex(),
-                    children=[c.to_json() for c in self.children])
+                    ino=self.ino, share=self.share, children=[c.to_json() for c in self.children])
 
     @staticmethod
     def from_json(d):
         return T(bytes.fromhex(d["name"]), d["kind"], bytes.fromhex(d["target"]), [bytes.fromhex(k) for k in d["xkeys"]],
                  [T.from_json(c) for c in d["children"]], bytes.fromhex(d.get("data", "78")), d.get("mode", 0o644),
-                 d.get("uid", 0), d.get("gid", 0), d.get("mtime", 0))
+                 d.get("uid", 0), d.get("gid", 0), d.get("mtime", 0), d.get("ino"), d.get("share", False))
 
     def count(self):
         return 1 + sum(c.count() for c in self.children)
 
     def show(self, ind=0):
-        s = "%s%r %s%s%s\n" % ("  " * ind, self.name, self.kind, (" -> %r" % self.target) if self.kind == "l" else "",
-                               (" x=%r" % self.xkeys) if self.xkeys else "")
+        s = "%s%r %s%s%s%s\n" % ("  " * ind, self.name, self.kind, (" -> %r" % self.target) if self.kind == "l" else "",
+                                 (" x=%r" % self.xkeys) if self.xkeys else "",
+                                 (" ino-group=%r%s" % (self.ino, " same-inode" if self.share else "")) if self.ino is not None else "")
         return s + "".join(c.show(ind + 1) for c in self.children)
 
 
@@ -87,8 +94,11 @@ def build_image(root, block_size=4096):
     """Image bytes for tree `root` (root.name ignored).  xattr sets are appended behind the id table (the reader
     bounds its xattr metadata readers by [id_table_start, bytes_used))."""
     sets = []
+    groups = {}
 
     def conv(t):
+        if t.ino is not None and t.share and t.ino in groups and groups[t.ino][0].typ == KIND2T[t.kind]:
+            return groups[t.ino][0]            # the same inode under a second name (equal inode reference)
         kw = {}
         ov = {}
         if t.xkeys:
@@ -104,8 +114,32 @@ def build_image(root, block_size=4096):
             kw["dev"] = 0x0103 if t.kind == "c" else 0x0700   # /dev/null-like numbers, never opened
         elif t.kind == "f":
             kw["data"] = t.data
-        return S.BNode(typ, mode=t.mode, uid=t.uid, gid=t.gid, mtime=t.mtime, ov=ov, **kw)
+        if t.ino is not None:
+            kw["nlink"] = 2                    # entries sharing an inode number present themselves as hard links
+        b = S.BNode(typ, mode=t.mode, uid=t.uid, gid=t.gid, mtime=t.mtime, ov=ov, **kw)
+        if t.ino is not None:
+            groups.setdefault(t.ino, []).append(b)
+        return b
+
+    def share_numbers(broot):
+        """every group gets the inode number the writer gives its first member (children before parents, root last)"""
+        cnt = [0]
+        seen = {}
+
+        def number(n):
+            for _, c in n.children:
+                if id(c) not in seen:
+                    number(c)
+            if id(n) not in seen:
+                cnt[0] += 1
+                seen[id(n)] = cnt[0]
+        number(broot)
+        for g in groups.values():
+            num = min(seen[id(b)] for b in g if id(b) in seen)
+            for b in g:
+                b.ov["ino"] = num
     broot = conv(root)
+    share_numbers(broot)
     if root.kind != "d":
         # a crafted super block whose root reference is not a directory: lay the inode out below a wrapper
         # directory, then point root_ref at it (the layout is deterministic, so build twice)
@@ -113,7 +147,9 @@ def build_image(root, block_size=4096):
         b.build()
         ref = broot.ref
         del sets[:]
+        groups.clear()
         broot = conv(root)
+        share_numbers(broot)
         b2 = S.Builder(S.BNode(S.T_DIR, mode=0o755, children=[(b"x", broot)]), block_size=block_size, pad=0,
                        super_ov=dict(root_ref=ref))
         img = bytearray(b2.build())
@@ -171,7 +207,7 @@ def filter_tree(t, rdflags):
         if c2.kind == "d" and not c2.children and "E" in rdflags:
             continue
         ch.append(c2)
-    return T(t.name, t.kind, t.target, t.xkeys, ch, t.data, t.mode, t.uid, t.gid, t.mtime)
+    return T(t.name, t.kind, t.target, t.xkeys, ch, t.data, t.mode, t.uid, t.gid, t.mtime, t.ino, t.share)
 
 
 def select_subtree(root, sub):
